@@ -222,7 +222,7 @@ impl Walker<'_> {
             }
         }
     }
-    fn from(&mut self, f: &mut From) {
+    fn from_clause(&mut self, f: &mut From) {
         match f {
             From::Table { .. } => {}
             From::Subquery { q, .. } => self.within("from_subquery", |w| w.query(q)),
@@ -235,8 +235,8 @@ impl Walker<'_> {
                 }
             }),
             From::Join { left, right, cond, .. } => {
-                self.from(left);
-                self.from(right);
+                self.from_clause(left);
+                self.from_clause(right);
                 if let JoinCond::On(e) = cond {
                     self.within("join_on", |w| w.expr(e));
                 }
@@ -255,7 +255,7 @@ impl Walker<'_> {
                     }
                 });
                 if let Some(f) = &mut sel.from {
-                    self.from(f);
+                    self.from_clause(f);
                 }
                 if let Some(p) = &mut sel.where_ {
                     self.within("where", |w| w.expr(p));
@@ -480,7 +480,7 @@ fn class_of_type(t: &DataType) -> ColType {
 fn values_for(slot: &Slot, d: &Domain, thorough: bool, inferred: Option<ColType>) -> Vec<Value> {
     let mut out: Vec<Value> = vec![];
     let mut push = |v: Value| {
-        if !out.contains(&v) || (matches!(v, Value::Float(_) | Value::Int(_)) && !out.iter().any(|o| o.col_type() == v.col_type() && *o == v)) {
+        if !out.contains(&v) {
             out.push(v);
         }
     };
@@ -587,7 +587,7 @@ impl Session {
         r
     }
     /// Plan the placeholder text of `v` for `route`.  `declared` = SQL type names for `Pd`.
-    fn plan(&mut self, v: &Variant, route: Route, declared: Option<&[&'static str]>) -> Result<Planned, String> {
+    fn plan(&mut self, v: &Variant, route: Route, declared: Option<&[String]>) -> Result<Planned, String> {
         match route {
             Route::WithPositional | Route::WithNamed => {
                 let text = if route == Route::WithPositional { v.positional() } else { v.named() };
@@ -723,8 +723,8 @@ fn judge(bound: Result<Vec<Row>, String>, literal: Result<Vec<Row>, String>, lit
     }
 }
 
-fn declared_for(v: &Variant, classes: &[ColType]) -> Option<Vec<&'static str>> {
-    (0..v.n_params).map(|p| classes.get(p).and_then(|c| sql_type_name(*c))).collect()
+fn declared_for(v: &Variant, classes: &[ColType]) -> Option<Vec<String>> {
+    (0..v.n_params).map(|p| classes.get(p).and_then(|c| sql_type_name(*c)).map(|s| s.to_string())).collect()
 }
 
 /// Class of every parameter of a variant for a value assignment: the class of the first
@@ -746,8 +746,7 @@ fn param_classes(v: &Variant, values: &[Value]) -> Vec<ColType> {
 }
 
 fn eval_case(sess: &mut Session, c: &Case) -> Verdict {
-    let declared: Option<Vec<&'static str>> = c.declared.as_ref().map(|d| d.iter().map(|s| -> &'static str { Box::leak(s.clone().into_boxed_str()) }).collect());
-    let planned = match sess.plan(&c.variant, c.route, declared.as_deref()) {
+    let planned = match sess.plan(&c.variant, c.route, c.declared.as_deref()) {
         Ok(p) => p,
         Err(e) => return Verdict::Rejected(normalise_error(&e)),
     };
@@ -902,7 +901,7 @@ fn explore(ctx: &Ctx) {
             }
             for route in ROUTES {
                 // Pd: one PREPARE per distinct declared-type vector
-                let mut planned_cache: Vec<(Option<Vec<&'static str>>, Result<Planned, String>)> = vec![];
+                let mut planned_cache: Vec<(Option<Vec<String>>, Result<Planned, String>)> = vec![];
                 for (ai, a) in assigns.iter().enumerate() {
                     if ctx.out_of_time() {
                         return;
@@ -927,7 +926,7 @@ fn explore(ctx: &Ctx) {
                         id: q.id.clone(),
                         variant: v.clone(),
                         route,
-                        declared: declared.as_ref().map(|t| t.iter().map(|s| s.to_string()).collect()),
+                        declared: declared.clone(),
                         values: a.clone(),
                         db_label: label.clone(),
                         db: dbv.clone(),
